@@ -8,6 +8,7 @@ import (
 	"os"
 	"strconv"
 	"strings"
+	"time"
 
 	"github.com/enfein/mieru/v3/pkg/protocol"
 	"verifharness/core"
@@ -57,8 +58,19 @@ func flowRunRecv(c *core.Ctx, k flowCase) {
 			pay, _ := strconv.ParseUint(f[2], 10, 32)
 			var pl [4]byte
 			binary.BigEndian.PutUint32(pl[:], uint32(pay))
-			if err := b.InputData(uint32(seq), 0, 100, pl[:]); err != nil {
-				c.Violate("C02/flow/input-error", fmt.Sprintf("%s: Session.input returned %v for a well-formed data segment", k.Name, err), k)
+			// the model says the packet input path never blocks (a closed window drops before
+			// waitForRecvQueueSpace can wait): run it under a watchdog
+			done := make(chan error, 1)
+			go func() { done <- b.InputData(uint32(seq), 0, 100, pl[:]) }()
+			select {
+			case err := <-done:
+				if err != nil {
+					c.Violate("C02/flow/input-error", fmt.Sprintf("%s: Session.input returned %v for a well-formed data segment", k.Name, err), k)
+					return
+				}
+			case <-time.After(20 * time.Second):
+				st := b.State()
+				c.Disagree("C02/corr/flow-recv-blocked", fmt.Sprintf("%s: Session.input did not return within 20 s for %q (recvBuf %d, recvQueue %d, window %d): the input loop of the session is blocked, the model never blocks", k.Name, op, st.RecvBufLen, st.RecvQueueLen, st.ReceiveWindow), k)
 				return
 			}
 		}
@@ -92,6 +104,7 @@ func flowRunSend(c *core.Ctx, k flowCase) {
 	consts := protocol.VerifConsts()
 	var real, mops []string
 	dead := false
+	maxBuf := 0
 	lastWnd := int(consts["minWindowSize"]) // remoteWindowSize starts at minWindowSize
 	for _, op := range k.Ops {
 		if dead {
@@ -154,8 +167,17 @@ func flowRunSend(c *core.Ctx, k flowCase) {
 		if f[0] == "o" && !dead && pre.SendBufLen == 0 && pre.SendQueueLen > 0 && lastWnd > 0 && len(sb) == 0 {
 			c.Violate("C02/flow/queued-data-not-sent-with-open-window", fmt.Sprintf("%s: op #%d: sendBuf empty, %d segments queued, the last ack advertised window %d, yet the output round sent nothing (remoteWindowSize %d)", k.Name, len(real)-1, pre.SendQueueLen, lastWnd, pre.RemoteWindow), k)
 		}
+		if len(sb) > maxBuf {
+			maxBuf = len(sb)
+		}
 		if len(sb) >= flowCap {
 			c.Violate("C02/flow/send-buffer-full", fmt.Sprintf("%s after %q: sendBuf holds %d segments", k.Name, op, len(sb)), k)
+		}
+	}
+	if k.Name == "send-buffer-one-below-capacity" {
+		c.Hist("flow_send_boundary_max_sendbuf", fmt.Sprint(maxBuf))
+		if maxBuf != flowCap-1 {
+			c.Note("flow-send boundary case reached sendBuf %d, not %d", maxBuf, flowCap-1)
 		}
 	}
 	c.Compared()
@@ -245,6 +267,12 @@ func flowBoundaryCases() []flowCase {
 		sent += 600
 		grow = append(grow, fmt.Sprintf("a:%d:65535", sent)) // acks at most what exists; below the real nextSend discards only what was sent
 	}
+	// then fill sendBuf without acks: each round sends about half of what the congestion window leaves
+	var fillBuf []string
+	for r := 0; r < 10; r++ {
+		fillBuf = append(fillBuf, rep("q", 1500)...)
+		fillBuf = append(fillBuf, rep(o(), 4)...)
+	}
 	var abandon []string
 	abandon = append(abandon, "q", "q", o())
 	for i := 0; i < 19; i++ {
@@ -266,7 +294,7 @@ func flowBoundaryCases() []flowCase {
 		{Name: "stale-and-future-acks", Ops: cat(rep("q", 10), []string{o(), "a:5:7", "a:2:9", "a:0:0", o(), "a:4000000000:50", o(), "q", o()})},
 		{Name: "ack-counter-wraps-at-256", Ops: cat(rep("q", 2), []string{o()}, rep("a:0:100", 256), []string{o()}, rep("a:0:100", 3), []string{o(), o()})},
 		{Name: "remote-window-of-one", Ops: cat(rep("q", 6), []string{"a:0:1", o(), o(), "a:1:1", o(), "a:2:2", o(), o(1), o()})},
-		{Name: "send-buffer-one-below-capacity", Ops: cat(grow, rep("q", 4000), []string{o(), o(), o(), o(), o(), o(), o(), o(), o(), o(), o(), o(), o(), o()}, rep("q", 90), []string{o(), o(), fmt.Sprintf("a:%d:65535", sent+1), o(), o()})},
+		{Name: "send-buffer-one-below-capacity", Ops: cat(grow, fillBuf, []string{fmt.Sprintf("a:%d:65535", sent+1)}, rep(o(), 4))},
 	}
 	for i := range send {
 		send[i].Kind = "flow-send"
